@@ -339,11 +339,15 @@ RandMailbox(i) ==
               IF RandomElement(1..3) = 1 THEN RandomElement(SUBSET (1..n)) ELSE {},
               [j \in 1..n |-> RandCore(j)])
 
+(* TLC evaluates a constant-level bound set of a quantifier once and for all: *)
+(* the draws mention the view so that every view gets its own sample.         *)
+Draw(n, S, v) == RandomSubset(n + 0 * Len(v), S)
+
 SampleKeys(v) ==
-         RandomSubset(NumLeaf, AllLeaves)
-    \cup UNION { LET L == RandomSubset(LeafSetSize, AllLeaves)
-                 IN  RandomSubset(NumD1, Comp(L) \cup And3(L))
-                     \cup RandomSubset(NumD2, Comp(Depth1(L)) \ Depth1(L))
+         Draw(NumLeaf, AllLeaves, v)
+    \cup UNION { LET L == Draw(LeafSetSize + 0 * j, AllLeaves, v)
+                 IN  Draw(NumD1, Comp(L) \cup And3(L), v)
+                     \cup Draw(NumD2, Comp(Depth1(L)) \ Depth1(L), v)
                  : j \in 1..NumLeafSets }
 
 KeysFor(v) == IF Exhaustive THEN Depth2(AllLeaves) ELSE SampleKeys(v)
